@@ -85,6 +85,15 @@ Definition ids (s : astate) : list Z := map snd (alog s).
 Definition alloc_safeb (sk : list ainstr) : bool :=
   match sk with [IAtomicAdd; IRetReg] => true | _ => false end.
 
+(* ... or a plain load / store / read-back inside ONE region of the package-level mutex *)
+Definition lock_safeb (sk : list ainstr) : bool :=
+  match sk with
+  | [ILock; ILoad; IStoreInc; IRetLoad; IUnlock] => true
+  | [ILock; ILoad; IStoreInc; ILoad; IRetReg; IUnlock] => true
+  | _ => false
+  end.
+Definition alloc_okb (sk : list ainstr) : bool := alloc_safeb sk || lock_safeb sk.
+
 (* bounded witness search: two threads, one allocation each, every interleaving *)
 Fixpoint nodupZb (l : list Z) : bool :=
   match l with [] => true | x :: r => negb (existsb (Z.eqb x) r) && nodupZb r end.
